@@ -45,7 +45,7 @@ PROFILES: dict[str, dict[str, Any]] = {
 }
 OPS = ["cp", "group", "forever", "raise", "cleanup", "scope", "spawn", "cancel", "catch_then",
        "wait", "sleep", "await_handle", "cancel_task", "shield", "return", "catch_mix",
-       "tscope", "probe", "deadline", "scp"]  # fmt: skip
+       "tscope", "probe", "deadline", "scp", "cic"]  # fmt: skip
 GRID = [0, 0.5, 1, 1.5, 2, 3, 4]
 
 
@@ -63,7 +63,7 @@ class Gen:
         self.events = ["e0", "e1"]
 
     def pick(self, allowed: list[str]) -> str:
-        ws = [self.w.get(o, {"tscope": 0.3, "probe": 0.3, "deadline": 0.2, "scp": 0.7}.get(o, 0)) for o in allowed]
+        ws = [self.w.get(o, {"tscope": 0.3, "probe": 0.3, "deadline": 0.2, "scp": 0.7, "cic": 0.7}.get(o, 0)) for o in allowed]
         return self.rng.choices(allowed, ws)[0]
 
     def body(self, depth: int, groups: list[int], in_start: bool = False,
@@ -183,6 +183,8 @@ class Gen:
                 ops.append(["probe"])
             elif k == "scp":
                 ops.append(["scp", rng.randint(1, 3)])
+            elif k == "cic":
+                ops.append(["cic", rng.randint(1, 2)])
             elif k == "deadline":
                 pool = self.sids + [x for x in self.tsids]
                 if pool:
